@@ -190,7 +190,12 @@ def s4_fee_models(ctx):
     nps = normal(ps)
     exp = T.t_mul(T.t_add(V('commission_pct'), V('tax_pct')), ('call', ('ext', 'ABS'), (cons,), ()))
     ok = len(ps) == 1 and len(nps) == 1 and T.teq(nps[0].value, exp)
-    ctx.require(ok, 'C05.S4', 'percentage model: (commission rate + tax rate) x |consideration| on every path', ctx.fn(qn).site(),
+    unread_ = [s_ for p_ in nps for s_ in T.subterms(p_.value or ZERO) if (s_[0] == 'call' and (s_[1][0] == 'fn' or s_[1] == ('ext', 'APPLY') or s_[1][0] == 'meth')) or s_[0] in ('havoc', 'lc')]
+    if not ok and unread_:
+        # the total is put together from calls the engine did not read to the end (hooks looked up by name, methods of records that carry the rates)
+        ctx.undecided('C05.S4', 'percentage model: (commission rate + tax rate) x |consideration| on every path', ctx.fn(qn).site(), 'computed through %s' % fmt(unread_[0])[:120])
+    else:
+      ctx.require(ok, 'C05.S4', 'percentage model: (commission rate + tax rate) x |consideration| on every path', ctx.fn(qn).site(),
                 '; '.join('%s -> %s' % (cond_str(p), fmt(p.value) if p.value else p.outcome) for p in ps)[:300], key='C05.S4|percent')
     qn = 'ZeroFeeModel.calc_total_cost'
     ps = summarise(ctx, qn, policy=default_policy)
